@@ -81,6 +81,12 @@ PENDING_FINDINGS = [
      'what': 'write_annot with a colour table of zero entries and >=1 (unlabeled, -1) vertices raises IndexError '
              '(ctab[:, -1][labels] indexes an empty column before the -1 labels are replaced by 0)',
      'input': {'op': 'annot', 'orig': False, 'fill': True, 'ncol': 4, 'labels': [-1], 'ctab': [], 'names': []}},
+    {'property': 'C19', 'signature': 'annot:narrow-ctab-dtype', 'status': 'open',
+     'what': 'write_annot(fill_ctab=True) with a colour table of an integer dtype narrower than 32 bits (e.g. uint8) '
+             'writes wrong annotation values (_pack_rgb computes the shifts 2**8, 2**16 in the table dtype, where they '
+             'overflow): labels read back wrong, silently',
+     'input': {'op': 'annot', 'orig': False, 'fill': True, 'ncol': 4, 'labels': [1], 'dt_t': 'u1',
+               'ctab': [[10, 200, 30, 0], [255, 255, 255, 7]], 'names': ['a', 'b']}},
 ]
 
 GEN_PATH = os.path.join(LEAN, 'NibabelModel', 'Generated', 'C19.lean')
@@ -88,7 +94,7 @@ FTR_NAMES = ['tr', 'flip_angle', 'te', 'ti', 'fov']
 VEC_KEYS = ['voxelsize', 'xras', 'yras', 'zras', 'cras']
 ALL_KEYS = ['head', 'valid', 'filename', 'volume'] + VEC_KEYS
 DT_NP = {'u1': np.uint8, 'i2': np.int16, 'i4': np.int32, 'f4': np.float32, 'i1': np.int8, 'u2': np.uint16,
-         'f8': np.float64, 'i8': np.int64}
+         'f8': np.float64, 'i8': np.int64, 'u4': np.uint32}
 ONE = 0x3F800000
 
 _TMP = None
@@ -272,6 +278,38 @@ def hexlist(toks):
     return '[' + ','.join(hx(t) for t in toks) + ']'
 
 
+LAYOUTS = ['C', 'F', 'strided', 'rev', 'swap', 'Fswap', 'T']
+NARROW = ('u1', 'i1', 'i2', 'u2')
+
+
+def relayout(a, lay):
+    """an array equal to `a` (same shape, dtype kind/size, same element bits) with another MEMORY layout:
+    C / Fortran order, a strided view into a larger buffer, a view with negative strides, a transposed view,
+    non-native byte order.  The logical array is what a writer must serialise."""
+    a = np.asarray(a)
+    if a.ndim == 0:
+        return a
+    if lay in (None, 'C'):
+        return np.ascontiguousarray(a)
+    if lay == 'F':
+        return np.asfortranarray(a)
+    if lay == 'T':                       # e.g. np.vstack([x, y, z]).T
+        return np.ascontiguousarray(a.T).T
+    if lay == 'strided':
+        big = np.zeros(tuple(2 * n + 1 for n in a.shape), dtype=a.dtype)
+        view = big[tuple(slice(1, 2 * n + 1, 2) for n in a.shape)]
+        view[...] = a
+        return view
+    if lay == 'rev':
+        idx = tuple(slice(None, None, -1) for _ in a.shape)
+        return np.ascontiguousarray(a[idx])[idx]
+    if lay == 'swap':
+        return np.ascontiguousarray(a).astype(a.dtype.newbyteorder('S'))
+    if lay == 'Fswap':
+        return np.asfortranarray(a).astype(a.dtype.newbyteorder('S'), order='F')
+    raise ValueError(lay)
+
+
 def is_qnan_or_num(p):
     e = (p >> 23) & 0xFF
     m = p & 0x7FFFFF
@@ -307,6 +345,8 @@ def mk_annot(d, stream='annot'):
     names = ';'.join((n.encode('utf-8').hex() or '_') for n in d['names']) if d['names'] else '-'
     line = (f"C19 annot {int(d['orig'])} {int(d['fill'])} {int(d['ncol'] == 5)} {commas(d['labels'])} "
             f"{rows} {names}")
+    if d.get('dt_t', 'i8') in NARROW:
+        line = None          # _pack_rgb computes in the table's dtype: not modelled (open finding), oracle only
     return Case(line, d, ('annot', _h(d)) if d['labels'] else None, stream)
 
 
@@ -350,13 +390,19 @@ def vol_dict(vol):
     return o
 
 
+def geom_arrays(d):
+    nv, nf = d['nv'], d['nf']
+    coords = f32_of(d['coords']).astype(DT_NP[d.get('dt_c', 'f8')]).reshape(nv, 3)
+    faces = np.array(d['faces'], dtype=np.int64).astype(DT_NP[d.get('dt_f', 'i8')]).reshape(nf, 3)
+    return relayout(coords, d.get('lay_c')), relayout(faces, d.get('lay_f'))
+
+
 def impl_geom(case):
     d = case.data
     io = fio()
     p = os.path.join(tmpdir(), 'lh.geom')
     nv, nf = d['nv'], d['nf']
-    coords = f32_of(d['coords']).astype(np.float64).reshape(nv, 3)
-    faces = np.array(d['faces'], dtype=np.int64).reshape(nf, 3)
+    coords, faces = geom_arrays(d)
     with warnings.catch_warnings():
         warnings.simplefilter('ignore')
         try:
@@ -390,7 +436,7 @@ def impl_geom(case):
 
 def morph_array(d):
     a = f32_of(d['vals']).astype(np.float64 if d.get('f64', True) else np.float32)
-    return a.reshape(tuple(d['shape']))
+    return relayout(a.reshape(tuple(d['shape'])), d.get('lay'))
 
 
 def impl_morph(case):
@@ -413,9 +459,9 @@ def impl_morph(case):
 
 def annot_arrays(d):
     n = len(d['ctab'])
-    ctab = np.array(d['ctab'], dtype=np.int64).reshape(n, d['ncol'])
-    labels = np.array(d['labels'], dtype=np.int64)
-    return labels, ctab, list(d['names'])
+    ctab = np.array(d['ctab'], dtype=np.int64).reshape(n, d['ncol']).astype(DT_NP[d.get('dt_t', 'i8')])
+    labels = np.array(d['labels'], dtype=np.int64).astype(DT_NP[d.get('dt_l', 'i8')])
+    return relayout(labels, d.get('lay_l')), relayout(ctab, d.get('lay_t')), list(d['names'])
 
 
 def impl_annot(case):
@@ -458,7 +504,7 @@ def mgh_affine(d):
 def mgh_data(d):
     dt = np.dtype(DT_NP[d['dt']])
     u = np.array([int(x) for x in d['data']], dtype=f'<u{dt.itemsize}').view(dt.newbyteorder('<'))
-    return np.asarray(u, dtype=dt).reshape(tuple(d['shape']), order='F')
+    return relayout(np.asarray(u, dtype=dt).reshape(tuple(d['shape']), order='F'), d.get('lay'))
 
 
 def impl_mgh(case):
@@ -606,7 +652,7 @@ def oracle_morph(case, out):
     if not out.startswith('ok ') or ' RERR' in out:
         return f'morph write/read raised for accepted shape {d["shape"]}: {out[-60:]}'
     v = np.asarray(case.extra['res'])
-    want = morph_array(d).astype(np.float32).reshape(-1)
+    want = f32_of(d['vals']).astype(np.float32)     # the logical vector, whatever its memory layout
     if v.shape != want.shape or pat_of(v) != pat_of(want) or v.dtype.itemsize != 4:
         return f'morph values differ for shape {d["shape"]}: got {pat_of(v)[:5]} want {pat_of(want)[:5]}'
     raw = case.extra['raw']
@@ -664,6 +710,9 @@ def oracle_annot(case, out):
         if got == limit:
             return ('[zero-packed] label referring to a colour-table entry packed to 0 read back as -1: '
                     f'labels {want[:8]} -> {got[:8]}')
+        if d.get('dt_t', 'i8') in NARROW and d['fill']:
+            return (f'[narrow-ctab] labels differ after round trip with a {d["dt_t"]} colour table: '
+                    f'got {got[:8]} want {want[:8]}')
         return f'labels differ after round trip: got {got[:8]} want {want[:8]}'
     return None
 
@@ -783,6 +832,8 @@ def signature(case, what):
         n = len(d['ctab'])
         if what.startswith('[zero-packed]') and any(l >= 0 and l < n and pack(d['ctab'][l]) == 0 for l in d['labels']):
             return 'annot:zero-packed-rgb-referenced'
+        if what.startswith('[narrow-ctab]') and d.get('dt_t') in NARROW and d['fill']:
+            return 'annot:narrow-ctab-dtype'
         if what.startswith('[empty-ctab]') and n == 0 and d['labels'] and all(l == -1 for l in d['labels']):
             return 'annot:empty-ctab-unlabeled-vertices'
         return 'annot:other'
@@ -798,6 +849,8 @@ def in_known_class(d):
     if d['op'] == 'annot':
         n = len(d['ctab'])
         if n == 0 and d['labels']:
+            return True
+        if d.get('dt_t', 'i8') in NARROW:
             return True
         return any(0 <= l < n and pack(d['ctab'][l]) == 0 for l in d['labels'])
     if d['op'] == 'mgh':
@@ -818,6 +871,12 @@ def shrink_candidates(case):
 def _shrink_candidates(case):
     d = case.data
     op = d['op']
+    for k in ('lay', 'lay_c', 'lay_f', 'lay_l', 'lay_t'):
+        if d.get(k, 'C') != 'C':
+            yield MK[op]({**d, k: 'C'}, case.stream)
+    for k, v in (('dt_c', 'f8'), ('dt_f', 'i8'), ('dt_l', 'i8'), ('dt_t', 'i8')):
+        if d.get(k, v) != v and not (k == 'dt_t' and d[k] in NARROW):
+            yield MK[op]({**d, k: v}, case.stream)
     if op == 'annot':
         if len(d['labels']) > 1:
             for i in range(len(d['labels'])):
@@ -926,6 +985,15 @@ def rand_vol(rng):
             **{k: [rng.choice(['1', '0', '-1', '1e-10', rand_dec(rng)]) for _ in range(3)] for k in VEC_KEYS}}
 
 
+LAY_W = ['C', 'C', 'C', 'F', 'F', 'T', 'strided', 'rev', 'swap', 'Fswap']
+
+
+def int_dt(rng, vals, choices=('i8', 'i8', 'i4', 'i2')):
+    dt = rng.choice(choices)
+    lim = {'i8': 63, 'i4': 31, 'i2': 15, 'i1': 7}[dt]
+    return dt if all(-2 ** lim <= v < 2 ** lim for v in vals) else 'i8'
+
+
 def gen_geom(rng, big=False):
     nv = rng.choice([0, 0, 1, 2, 3, 4, 5, 8, 13]) if not big else rng.randrange(50, 400)
     nf = rng.choice([0, 0, 1, 2, 3, 5, 9]) if not big else rng.randrange(50, 600)
@@ -939,7 +1007,9 @@ def gen_geom(rng, big=False):
                         rand_text(rng, 1, 300).replace('\n', ' ')])
     has_vol = rng.random() < 0.5
     return {'op': 'geom', 'meta': rng.random() < 0.8, 'stamp': stamp, 'nv': nv, 'nf': nf, 'coords': coords,
-            'faces': faces, 'vol': rand_vol(rng) if has_vol else None}
+            'faces': faces, 'vol': rand_vol(rng) if has_vol else None,
+            'lay_c': rng.choice(LAY_W), 'lay_f': rng.choice(LAY_W), 'dt_c': rng.choice(['f8', 'f8', 'f4']),
+            'dt_f': int_dt(rng, faces)}
 
 
 def gen_geom_edge(rng):
@@ -978,7 +1048,7 @@ def gen_morph(rng, big=False):
     fnum = rng.choice([0, 0, 0, 1, 327680, -1, 2 ** 31 - 1, -2 ** 31, rng.randrange(-2 ** 31, 2 ** 31),
                        rng.choice([2 ** 31, -2 ** 31 - 1, rng.randrange(-2 ** 33, 2 ** 33)])])
     return {'op': 'morph', 'shape': shape, 'vals': [rand_f32(rng) for _ in range(n)], 'fnum': fnum,
-            'f64': rng.random() < 0.5}
+            'f64': rng.random() < 0.5, 'lay': rng.choice(LAY_W)}
 
 
 def distinct_packs(rng, n, zero_p):
@@ -998,7 +1068,7 @@ def distinct_packs(rng, n, zero_p):
     return out
 
 
-def gen_annot(rng, zero_p=0.08, big=False):
+def gen_annot(rng, zero_p=0.08, big=False, narrow=False):
     n = rng.choice([0, 1, 1, 2, 3, 4, 6, 9]) if not big else rng.randrange(20, 80)
     packs = distinct_packs(rng, n, zero_p)
     fill = rng.random() < 0.6
@@ -1019,12 +1089,21 @@ def gen_annot(rng, zero_p=0.08, big=False):
         r = rng.random()
         names.append(rand_text(rng, 1, 200) if r < 0.3 else (rand_text(rng, 0, 12) if r < 0.9 else ''))
     names = [nm.rstrip('\0') for nm in names]
-    return {'op': 'annot', 'orig': rng.random() < 0.15, 'fill': fill, 'ncol': ncol, 'labels': labels, 'ctab': ctab,
-            'names': names}
+    flat = [v for r in ctab for v in r]
+    dt_t = rng.choice(['i8', 'i8', 'i4', 'u4', 'f8'])
+    if dt_t == 'u4' and any(v < 0 for v in flat):
+        dt_t = 'i8'
+    if narrow:
+        fill, ncol, ctab = True, 4, [r[:4] for r in ctab]
+        dt_t = rng.choice(['u1', 'u1', 'i2', 'u2'])
+    return {'op': 'annot', 'orig': rng.random() < 0.15 and not narrow, 'fill': fill, 'ncol': ncol, 'labels': labels,
+            'ctab': ctab, 'names': names, 'lay_l': rng.choice(LAY_W), 'lay_t': rng.choice(LAY_W),
+            'dt_l': int_dt(rng, labels + [len(ctab)], ('i8', 'i8', 'i4', 'i2', 'i1')), 'dt_t': dt_t}
 
 
 def gen_annot_edge(rng):
     d = gen_annot(rng, zero_p=0.0)
+    d['dt_t'] = d['dt_l'] = 'i8'          # the edge values below need the full range
     n = len(d['ctab'])
     k = rng.randrange(6)
     if k == 0 and d['labels']:
@@ -1078,7 +1157,7 @@ def gen_mgh(rng):
         sets.append([i, v])
     return {'op': 'mgh', 'shape': shape, 'dt': dt, 'data': data, 'zooms': zooms, 'perm': rng.randrange(len(PERMS)),
             'trans': [rng.randrange(-100, 100) for _ in range(3)], 'setz': setz, 'sets': sets,
-            'ext': rng.choice(['.mgh', '.mgh', '.mgz'])}
+            'ext': rng.choice(['.mgh', '.mgh', '.mgz']), 'lay': rng.choice(LAY_W)}
 
 
 def gen_mgh_edge(rng):
@@ -1149,6 +1228,28 @@ def cases(rng, tier):
             n = int(np.prod(s))
             out.append(mk_mgh({'op': 'mgh', 'shape': s, 'dt': dt, 'data': list(range(1, n + 1)), 'zooms': [ONE, 0x40000000, 0x3F000000],
                                'perm': 0, 'trans': [0, 0, 0], 'setz': None, 'sets': [[0, 0x40200000]], 'ext': '.mgh'}))
+    # ---- every memory layout x every writer on one small fixed input each
+    for lay in LAYOUTS:
+        for lay2 in ('C', lay):
+            out.append(mk_geom({'op': 'geom', 'meta': False, 'stamp': 's', 'nv': 4, 'nf': 2,
+                                'coords': [ONE + 8 * i for i in range(12)], 'faces': [0, 1, 2, 3, 2, 1], 'vol': None,
+                                'lay_c': lay, 'lay_f': lay2, 'dt_c': 'f8' if lay2 == 'C' else 'f4',
+                                'dt_f': 'i8' if lay2 == 'C' else 'i4'}, 'layout'))
+        for shape in ([4], [4, 1], [1, 4], [4, 1, 1]):
+            out.append(mk_morph({'op': 'morph', 'shape': shape, 'vals': [ONE + i for i in range(4)], 'fnum': 0,
+                                 'f64': lay != 'F', 'lay': lay}, 'layout'))
+        for fill in (True, False):
+            rows = [[10, 20, 30, 0], [1, 2, 3, 255], [200, 100, 50, 7]]
+            ct = rows if fill else [r + [pack(r)] for r in rows]
+            out.append(mk_annot({'op': 'annot', 'orig': False, 'fill': fill, 'ncol': 4 if fill else 5,
+                                 'labels': [2, -1, 0, 1, 1], 'ctab': ct, 'names': ['a', 'b', 'c'], 'lay_l': lay,
+                                 'lay_t': lay, 'dt_l': 'i4' if fill else 'i8', 'dt_t': 'i8' if fill else 'i4'}, 'layout'))
+        for dt in ('u1', 'i2', 'i4', 'f4'):
+            out.append(mk_mgh({'op': 'mgh', 'shape': [2, 3, 2, 2], 'dt': dt, 'data': list(range(1, 25)),
+                               'zooms': [ONE, 0x40000000, 0x3F000000], 'perm': 0, 'trans': [0, 0, 0], 'setz': None,
+                               'sets': [], 'ext': '.mgh', 'lay': lay}, 'layout'))
+    for _ in range(60 * mult):
+        out.append(mk_annot(gen_annot(rng, zero_p=0.0, narrow=True), 'annot-narrow'))
     # ---- random streams
     for _ in range(900 * mult):
         out.append(mk_geom(gen_geom(rng)))
